@@ -283,6 +283,9 @@ func gen(tier string, r *lib.Rand, emit func(string)) {
 			}
 		}
 	}
+
+	// (d) histories: several calls in one process
+	genHistories(tier, r, emit)
 }
 
 // ---- running the implementation under a watchdog ----
@@ -387,7 +390,11 @@ func workerLoop() {
 	w := bufio.NewWriter(os.Stdout)
 	for sc.Scan() {
 		f := strings.Split(sc.Text(), " ")
-		fmt.Fprintln(w, direct(byName[f[0]].alg, lib.ParseHexList(f[1])))
+		if f[0] == "shist" {
+			fmt.Fprintln(w, runHistory(f[1]))
+		} else {
+			fmt.Fprintln(w, direct(byName[f[0]].alg, lib.ParseHexList(f[1])))
+		}
 		w.Flush()
 	}
 }
@@ -395,11 +402,15 @@ func workerLoop() {
 // call runs one FindSequence in the worker: "hang" after the watchdog time (worker killed),
 // "panic fatal" if the worker died.
 func call(name string, targets []*big.Int) string {
+	return callLine(name + " " + lib.HexList(targets))
+}
+
+func callLine(line string) string {
 	if theWorker == nil {
 		theWorker = startWorker()
 	}
 	w := theWorker
-	fmt.Fprintf(w.in, "%s %s\n", name, lib.HexList(targets))
+	fmt.Fprintln(w.in, line)
 	select {
 	case res, ok := <-w.lines:
 		if !ok {
@@ -430,6 +441,9 @@ func parse(c string) (config, []*big.Int) {
 }
 
 func run(c string) string {
+	if strings.HasPrefix(c, "shist ") {
+		return callLine(c)
+	}
 	cfg, ts := parse(c)
 	return call(cfg.alg.String(), ts)
 }
@@ -500,6 +514,9 @@ func inDomain(ts []*big.Int) bool {
 }
 
 func oracle(c, res string) string {
+	if strings.HasPrefix(c, "shist ") {
+		return oracleHistory(strings.TrimPrefix(c, "shist "), res)
+	}
 	cfg, ts := parse(c)
 	orig := lib.CloneInts(ts)
 	if !inDomain(ts) {
@@ -556,6 +573,9 @@ func oracle(c, res string) string {
 }
 
 func nontrivial(c, res string) bool {
+	if strings.HasPrefix(c, "shist ") {
+		return strings.Count(res, "ok:") >= 2
+	}
 	_, ts := parse(c)
 	if !inDomain(ts) {
 		return false
@@ -577,6 +597,6 @@ func main() {
 			theWorker.stop()
 		}
 	}()
-	lib.Main(lib.Prop{ID: "C08", Gen: gen, Run: run, Oracle: oracle, Nontrivial: nontrivial,
+	lib.Main(lib.Prop{ID: "C08", Gen: gen, Run: run, Oracle: oracle, Nontrivial: nontrivial, Neighbours: neighbours,
 		PanicClass: classify})
 }
